@@ -213,7 +213,10 @@ impl Lsp {
         )
     }
 
+    /// Ends the session. The server does not exit by itself after `exit` (its writer thread keeps the
+    /// process alive), so it is given a short grace period and then killed, as editors do.
     pub fn shutdown(mut self) {
+        self.request_timeout = Duration::from_secs(5);
         let _ = self.request("shutdown", Value::Null);
         let _ = self.notify("exit", Value::Null);
         drop(self.stdin.take());
@@ -221,12 +224,12 @@ impl Lsp {
         loop {
             match self.child.try_wait() {
                 Ok(Some(_)) => break,
-                _ if start.elapsed() > Duration::from_secs(3) => {
+                _ if start.elapsed() > Duration::from_millis(40) => {
                     let _ = self.child.kill();
                     let _ = self.child.wait();
                     break;
                 }
-                _ => std::thread::sleep(Duration::from_millis(5)),
+                _ => std::thread::sleep(Duration::from_millis(2)),
             }
         }
         let _ = std::fs::remove_file(&self.stderr_path);
